@@ -14,13 +14,13 @@ def describe(tier):
                 'decrypt(encrypt(x)) == x and encrypt(decrypt(x)) == x; for n in {13..40,159,160,161,319,320,321,2047,2100} %d DRBG inputs each: '
                 'length preserved, inverse holds, distinct inputs give distinct outputs. BitwiseFPEPRP: for declared (key bits, message bits) '
                 'and actual lengths in {n-1,n,n+1}^2 the call is accepted iff both match, and equals BitwiseFFX.encrypt. '
-                'HmacLubyRackoffPRP: ALL 65536 two-byte messages are mapped injectively onto two-byte strings; message lengths 2..64 (even) x '
+                'HmacLubyRackoffPRP: ALL 65536 two-byte messages are mapped injectively onto two-byte strings; four-byte messages: injective on every slice {all 65536 values of one half} x {other half fixed to zero / a DRBG value}; message lengths 2..64 (even) x '
                 '200 DRBG inputs: injective, length-preserving, deterministic; odd message length, key length not divisible by 3, wrong key / '
                 'message length must raise ValueError; LubyRackoffPRP constructor contracts. non-trivial = input other than all-zero.'
                 % (nmax, 20),
         'bounds': 'n<=%d exhaustive over inputs; 3 keys' % nmax,
         'assumptions': ['n = 1 is outside the property (it starts at n = 2)', 'non-default constructions: even round counts {2,4,6,8,12,16} x {sha1,sha256,md5,sha512}, all inputs of n = 2..8 (10); an odd round count is outside (upstream pyffx construction: with unequal halves it is its own inverse only for an even number of rounds; nothing in the library uses one)', 'keys are DRBG values (3 per width)'],
-        'must_be_nonzero': ['ffx-exhaustive-widths', 'ffx-nondefault-construction', 'ffx-wide', 'fpeprp-contract', 'lr-2byte-exhaustive', 'lr-contract-refused'],
+        'must_be_nonzero': ['ffx-exhaustive-widths', 'ffx-nondefault-construction', 'ffx-wide', 'fpeprp-contract', 'lr-2byte-exhaustive', 'lr-4byte-slices', 'lr-contract-refused'],
     }
 
 
@@ -39,6 +39,10 @@ def units(tier, seed):
     for q in range(4):
         us.append(('lr2/%d' % q, {'kind': 'lr2', 'q': q}))
     us.append(('lr2-join', {'kind': 'lr2join'}))
+    for ki in range(1 if tier == 'quick' else 3):
+        for vary in ('left', 'right'):
+            for fi in (0, 1):
+                us.append(('lrslice/%d/%s/%d' % (ki, vary, fi), {'kind': 'lrslice', 'ki': ki, 'vary': vary, 'fi': fi}))
     for ml in range(2, 65, 2):
         us.append(('lr/%d' % ml, {'kind': 'lr', 'ml': ml, 'count': 200 if tier != 'quick' or ml <= 16 else 60}))
     us.append(('lr-contracts', {'kind': 'lrc'}))
@@ -231,6 +235,34 @@ def run_unit(p, tier, seed):
             r.v(PROPERTY, 'HmacLubyRackoffPRP', 'bijection', 'collision', {'message_length': 2, 'quarter': q}, 16384, len(img))
         r.count('lr-2byte-exhaustive')
         r.outcome('lr2-quarter-injective')
+    elif kind == 'lrslice':
+        # 4-byte messages: the whole domain (2^32) is too large, but a Feistel network must be injective on every slice of it.
+        # Slices that fix one half and run through ALL 65536 values of the other exercise every value a round's XOR can take.
+        P = get_prp_implementation('HmacLubyRackoffPRP')
+        g = det.rng(seed, 'c15-lrslice', p['ki'])
+        key = g.randbytes(48)
+        prp = P(message_length=4, key_length=48)
+        fixed = [b'\x00\x00', g.randbytes(2)][p['fi']]
+        img = set()
+        for x in range(65536):
+            v = x.to_bytes(2, 'big')
+            m = (v + fixed) if p['vary'] == 'left' else (fixed + v)
+            y = prp(key, m)
+            if len(y) != 4:
+                r.v(PROPERTY, 'HmacLubyRackoffPRP', 'length', 'output', {'message': m}, 4, len(y))
+            img.add(y)
+        r['evaluations'] += 65536
+        r['transitions'] += 65536
+        r['states'] += 65536
+        r['nontrivial'] += 65535
+        case = {'message_length': 4, 'slice': p['vary'], 'fixed_half': fixed, 'key_index': p['ki'], 'fixed_index': p['fi']}
+        if len(img) != 65536:
+            r.v(PROPERTY, 'HmacLubyRackoffPRP', 'bijection', 'collision-in-4-byte-slice', case, '65536 distinct images', len(img))
+            r.outcome('lr-slice-collision')
+        else:
+            r.outcome('lr-slice-injective')
+        r.count('lr-4byte-slices')
+        r.sample({'prim': 'HmacLubyRackoffPRP', 'message_length': 4, 'inputs': 'all 65536 values of the %s half, other half fixed' % p['vary']}, limit=1)
     elif kind == 'lr2join':
         # the four quarters are injective each; the whole 2-byte domain is checked here once more in one pass
         P = get_prp_implementation('HmacLubyRackoffPRP')
@@ -317,6 +349,8 @@ def replay(case, seed):
         return run_unit({'kind': 'ffxw', 'n': case['n'], 'count': 20}, 'quick', seed)['violations']
     if 'declared' in case or case.get('n') == 6 or case.get('shared_key'):
         return run_unit({'kind': 'fpeprp'}, 'quick', seed)['violations']
+    if 'slice' in case:
+        return run_unit({'kind': 'lrslice', 'ki': case['key_index'], 'vary': case['slice'], 'fi': case['fixed_index']}, 'quick', seed)['violations']
     if case.get('message_length') == 2 and 'quarter' in case:
         return run_unit({'kind': 'lr2join'}, 'quick', seed)['violations']
     if 'hash' in case:
